@@ -3,6 +3,10 @@
 import json, subprocess
 ALL = ["C%02d" % i for i in range(1, 21)]
 CHECKS = {
+ "C04": dict(cat="model_checking", ref="§5 C04, §4.4",
+   text="DvidPersist.tla: TLC explores a Crash between any two steps (in-memory step or store write) of every repo-level request, Recover (loadMetadata with its repairs) and a second crash during recovery, and checks Inv_C04_StartupSucceeds / Inv_C04_Recoverable (acknowledged facts visible, metadata well formed) and Inv_C12_CountersAhead. LogFrame.tla: every torn length of an append-only log yields exactly the complete records. Binding: the recorded store-write sequence of each request must equal the specification's program; then every store write N of a seeded multi-datatype workload is a crash point (process exit injected by the wrapping engine before and after the write, plus a second crash inside the recovery start-up): a new process must start, the metadata must be well formed and the canonical full snapshot must equal the fault-free reference after k or k+1 operations (all-or-nothing for repo-level/single-key operations; multi-key operations may be partial only inside their own instance). Filelog files are left torn at every byte length and read through ReadAll/StreamAll against LogFrame's expected record count.",
+   note="Crash granularity is the store API call (a Badger transaction/batch is atomic by contract); torn Badger files are not injected. Known finding: POST repo/info alias+description is two saves.",
+   tech="TLC model checking of DvidPersist.tla/LogFrame.tla + exhaustive crash-point enumeration of a workload on real processes via a crash-injecting store engine"),
  "C03": dict(cat="model_checking", ref="§5 C03, §4.4",
    text="DvidPersist.tla models every repo-level request as its program of in-memory steps and store writes with CleanRestart/Crash/Recover; TLC checks Act_C03_RestartIsStutter (rebuilding the manager state from what the writes persisted yields the same observable projection) for every reachable state. Binding: (1) the store-write sequence of every repo-level request, recorded by the wrapping store engine, must equal the program the specification prescribes (table emitted by TLC); (2) seeded multi-datatype histories are executed on the real server with a real process restart (alternating clean stop / SIGKILL while idle) after every operation and the complete API snapshot (repos info, DAG, branch heads, flags, notes, logs, instance settings/tags, every data read endpoint at every version) must be identical before and after.",
    note="Trusts Badger durability across process kill. Datatypes in the histories: keyvalue, roi, annotation, neuronjson, uint8blk (labelmap restarts are exercised by C08). master's branch-versions listing is excluded (ill-defined with merge nodes even without restart).",
